@@ -163,6 +163,10 @@ func c20Run(r *core.Run) {
 	}
 	hdr := map[string][]string{"X-Seq": {fmt.Sprintf("%x", r.T.Bytes(6))}, "Tcb-Info-Issuer-Chain": {string(r.T.Bytes(20)), "second"}}
 	body0 := r.T.Bytes(r.T.Range(0, 300))
+	emptyBody := r.Index%5 == 2 && r.Index%2 == 0 // never together with the long-lived getter (bodies tell calls apart there)
+	if emptyBody {
+		r.Probe("successful_response_with_empty_body")
+	}
 	body := body0
 	url := fmt.Sprintf("https://pcs.example/%x", r.T.Bytes(4))
 	bound := timeout + maxDelay + lat
@@ -205,6 +209,9 @@ func c20Run(r *core.Run) {
 		}
 		// every call serves its own body, so a response from an earlier call is recognisable
 		body = append(append([]byte(nil), body0...), byte(k), byte(k>>8))
+		if emptyBody {
+			body = []byte{} // a successful response may have an empty body: it is a success all the same
+		}
 		g := &c20Getter{failFirst: ff, latency: lat, hdr: hdr, body: body, url: url}
 		res := c20Bubble(r.TB, timeout, maxDelay, g, long)
 		r.Eval()
@@ -360,7 +367,7 @@ func init() {
 			return nCells
 		},
 		Run:         c20Run,
-		MustProbe:   []string{"gave_up_within_bound", "wait_capped_at_max", "success_after_failures_4+", "calls_through_one_long_lived_getter"},
+		MustProbe:   []string{"gave_up_within_bound", "wait_capped_at_max", "success_after_failures_4+", "calls_through_one_long_lived_getter", "successful_response_with_empty_body"},
 		SimTimeNote: "sum of fake-clock time elapsed inside RetryHTTPSGetter.Get over all bubbles",
 	})
 }
